@@ -1880,6 +1880,42 @@ var decoderErrorReviewed = map[string]string{
 	"(*pkg/packet/bgp.PathAttributeIP6ExtendedCommunities).DecodeFromBytes": "ParseIP6Extended → NewIPv6AddressSpecificExtended refuses a non-IPv6 address, but is handed netip.AddrFromSlice of exactly sixteen octets",
 }
 
+// fromDecoderCall: v is (a phi / local copy of) the error result of an interface call DecodeFromBytes.
+func fromDecoderCall(v ssa.Value, seen map[ssa.Value]bool) bool {
+	if seen[v] {
+		return false
+	}
+	seen[v] = true
+	switch x := v.(type) {
+	case *ssa.Call:
+		return x.Call.IsInvoke() && x.Call.Method.Name() == "DecodeFromBytes"
+	case *ssa.Extract:
+		return fromDecoderCall(x.Tuple, seen)
+	case *ssa.ChangeInterface:
+		return fromDecoderCall(x.X, seen)
+	case *ssa.TypeAssert:
+		// an assertion to a concrete type fixes the dynamic type: what comes out of it is no longer "whatever the decoder returned"
+		if types.IsInterface(x.AssertedType) {
+			return fromDecoderCall(x.X, seen)
+		}
+	case *ssa.Phi:
+		for _, e := range x.Edges {
+			if fromDecoderCall(e, seen) {
+				return true
+			}
+		}
+	case *ssa.UnOp:
+		if al, ok := x.X.(*ssa.Alloc); ok && al.Referrers() != nil {
+			for _, ref := range *al.Referrers() {
+				if st, ok := ref.(*ssa.Store); ok && st.Addr == ssa.Value(al) && fromDecoderCall(st.Val, seen) {
+					return true
+				}
+			}
+		}
+	}
+	return false
+}
+
 // ruleDecoderErrorType: attribute decoders only return errors of the type their caller asserts.
 func (c *Ctx) ruleDecoderErrorType(rule string, min int) {
 	r := c.R
@@ -1889,6 +1925,36 @@ func (c *Ctx) ruleDecoderErrorType(rule string, min int) {
 		r.Undec(rule, "-", "anchor:pkg/packet/bgp", "-", "not found")
 		return
 	}
+	// the premise, read from the tree: the caller's assertion is of the unchecked form. When it is not (comma-ok,
+	// errors.As …) a plain error is handled, nothing is demanded of the decoders and the rule says so.
+	upd := c.P.Func("(*pkg/packet/bgp.BGPUpdate).DecodeFromBytes")
+	if upd == nil {
+		r.Undec(rule, "-", "anchor:(*BGPUpdate).DecodeFromBytes", "-", "not found")
+		return
+	}
+	unchecked := ""
+	for _, f := range c.withPrivateHelpers(upd, 2) {
+		for _, b := range f.Blocks {
+			for _, in := range b.Instrs {
+				ta, ok := in.(*ssa.TypeAssert)
+				if !ok || ta.CommaOk {
+					continue
+				}
+				if n := ir.NamedOf(ir.Deref(ta.AssertedType)); n == nil || n.Obj().Name() != "MessageError" {
+					continue
+				}
+				if fromDecoderCall(ta.X, map[ssa.Value]bool{}) {
+					unchecked = c.P.InstrPos(ta)
+				}
+			}
+		}
+	}
+	if unchecked == "" {
+		r.Rule(rule, "premise not met on this tree: BGPUpdate.DecodeFromBytes no longer asserts a decoder's error to *MessageError without the comma-ok form, so nothing is demanded of the decoders", 0)
+		r.Ok(rule, ir.FuncKey(upd), "assertion of decoder errors", c.P.Pos(upd.Pos()), "checked form")
+		return
+	}
+	r.Ok(rule, ir.FuncKey(upd), "assertion of decoder errors", unchecked, "premise: unchecked assertion to *MessageError")
 	memo := map[*ssa.Function]string{}
 	var fnOK func(fn *ssa.Function, depth int) string
 	var valOK func(v ssa.Value, depth int, seen map[ssa.Value]bool) string
